@@ -9,6 +9,8 @@
 // aim generators at structural cases (guidance), all oracles are in the spec.
 #include "common.hpp"
 
+#include <malloc.h>
+
 #include <array>
 #include <functional>
 #include <optional>
@@ -69,16 +71,41 @@ struct OpMark {
   ~OpMark() { g_current_op = "none"; }
 };
 
+#ifdef VERIF_HEAPWRAP
+extern "C" long vh_live_bytes();
+extern "C" long vh_trace[64];
+extern "C" int vh_trace_n;
+extern "C" int vh_trace_on;
+extern "C" int vh_pause;
+struct HeapPause {
+  HeapPause() { ++vh_pause; }
+  ~HeapPause() { --vh_pause; }
+};
+#else
+struct HeapPause {};
+#endif
+
 // ------------------------------------------------------------------ registry
 static vh::AllocRegistry g_reg;
 static void hook_cb(unodb::verif::ev e, const void* a, std::uint64_t v) noexcept {
   using unodb::verif::ev;
   if (e == ev::H_ALLOC) {
     UNODB_DETAIL_PAUSE_HEAP_TRACKING_GUARD();
+    const HeapPause hp;
     g_reg.on_alloc(a, v);
   } else if (e == ev::H_FREE) {
     UNODB_DETAIL_PAUSE_HEAP_TRACKING_GUARD();
+    const HeapPause hp;
     g_reg.on_free(a);
+  } else if (e == ev::SPIN) {
+    // a single thread never has anybody to wait for: a lock was left held (C08, C14)
+    static long spins = 0;
+    if (++spins > 100000) {
+      static const char msg[] = "CRASH sig=0 op=spin_forever_lock_left_held\n";
+      (void)!write(2, msg, sizeof msg - 1);
+      if (g_out_file != nullptr) std::fflush(g_out_file);
+      _exit(71);
+    }
   }
 }
 
@@ -153,6 +180,9 @@ struct DriverT {
   std::uint64_t next_val_id = 1;
   long ops_in_history = 0;
   bool thorough = false;
+  bool faults = false;       // C08: fail the k-th allocation of every insert/remove, k = 1..
+  long fault_points = 0;
+  long spin_count = 0;
 
   // held views (db / olc): key -> span; dropped on remove/clear/quiescent
   struct HeldView {
@@ -230,10 +260,93 @@ struct DriverT {
                 views.end());
   }
 
+  static long heap_in_use() {
+#ifdef VERIF_HEAPWRAP
+    return vh_live_bytes();
+#else
+    return 0;
+#endif
+  }
+
+  // full observable state after a failed call (C08)
+  void log_dump() {
+    std::vector<Bytes> ks, rks;
+    std::vector<std::vector<int>> vs;
+    db->scan([&](const auto& v) {
+      ks.push_back(vh::span_to_bytes(v.get_key()));
+      vs.push_back(vh::value_repr(raw_span(v.get_value())));
+      return false;
+    }, true);
+    db->scan([&](const auto& v) {
+      rks.push_back(vh::span_to_bytes(v.get_key()));
+      return false;
+    }, false);
+    std::string vsj = "[";
+    for (std::size_t i = 0; i < vs.size(); ++i) {
+      if (i) vsj += ',';
+      vsj += '[';
+      for (std::size_t j = 0; j < vs[i].size(); ++j) {
+        if (j) vsj += ',';
+        vsj += std::to_string(vs[i][j]);
+      }
+      vsj += ']';
+    }
+    vsj += ']';
+    // every stored key is still found with its value (point lookups)
+    bool gets_ok = true;
+    for (const auto& k : ks) {
+      const auto r = db->get(make_key(k));
+      if (!Db::key_found(r)) gets_ok = false;
+    }
+    out.begin("dump").bytes_list("keys", ks).raw("vals", vsj).bytes_list("rkeys", rks).boolean("gets", gets_ok);
+    log_state();
+    out.end();
+  }
+
+  // run op() with the k-th allocation failing, k = 1, 2, ... until it completes
+  template <class F>
+  auto with_faults(const char* opname, const Bytes& k, F op) {
+    if (!faults) return op();
+    for (unsigned n = 1;; ++n) {
+      bool threw = false;
+#ifdef VERIF_HEAPWRAP
+      vh_trace_n = 0;
+      vh_trace_on = std::getenv("VERIF_HEAPTRACE") != nullptr;
+#endif
+      const long hb = heap_in_use();
+      long ha = hb;
+      unodb::test::allocation_failure_injector::fail_on_nth_allocation(n);
+      try {
+        auto r = op();
+        unodb::test::allocation_failure_injector::reset();
+        return r;
+      } catch (const std::bad_alloc&) {
+        unodb::test::allocation_failure_injector::reset();
+        threw = true;
+      }
+      if (threw) {
+        ha = heap_in_use();
+#ifdef VERIF_HEAPWRAP
+        vh_trace_on = 0;
+        if (ha != hb && std::getenv("VERIF_HEAPTRACE") != nullptr) {
+          std::fprintf(stderr, "HEAPTRACE n=%u:", n);
+          for (int i = 0; i < vh_trace_n; ++i) std::fprintf(stderr, " %ld", vh_trace[i]);
+          std::fprintf(stderr, "\n");
+        }
+#endif
+        ++fault_points;
+        out.begin("fail").str("op", opname).bytes("k", k).str("what", "bad_alloc").num("n", n);
+        out.num("hb", hb).num("ha", ha).end();
+        log_dump();
+      }
+      if (n > 64) std::abort();  // an operation cannot need that many allocations
+    }
+  }
+
   bool do_insert(const Bytes& k, std::size_t vlen) {
     const auto v = make_value(next_val_id++, vlen);
     const OpMark mark{"ins"};
-    const bool r = db->insert(make_key(k), unodb::value_view{v.data(), v.size()});
+    const bool r = with_faults("ins", k, [&] { return db->insert(make_key(k), unodb::value_view{v.data(), v.size()}); });
     out.begin("ins").bytes("k", k).nums("v", vh::value_repr({v.data(), v.size()}));
     out.num("vl", static_cast<long long>(vlen)).boolean("r", r);
     log_state();
@@ -245,13 +358,45 @@ struct DriverT {
   bool do_remove(const Bytes& k) {
     drop_views_of(k);  // a view is owed stability only while its entry exists
     const OpMark mark{"rem"};
-    const bool r = db->remove(make_key(k));
+    const bool r = with_faults("rem", k, [&] { return db->remove(make_key(k)); });
     out.begin("rem").bytes("k", k).boolean("r", r);
     log_state();
     out.end();
     if (r) shadow.erase(k);
     ++ops_in_history;
     return r;
+  }
+  // over-long key / value: std::length_error, nothing changes (C08)
+  void do_length_errors() {
+    static const std::byte fake{0};
+    const std::size_t too_long = static_cast<std::size_t>(std::numeric_limits<std::uint32_t>::max()) + 1U;
+    const Bytes k0 = shadow.empty() ? Bytes(kIsKv ? 3 : 8, 7) : *shadow.begin();
+    Bytes knew = k0;
+    knew.back() = static_cast<std::uint8_t>(knew.back() ^ 0x55);
+    if (!shadow.count(knew) && insert_allowed(knew)) {
+      bool threw = false;
+      try {
+        (void)db->insert(make_key(knew), unodb::value_view{&fake, too_long});
+      } catch (const std::length_error&) {
+        threw = true;
+      }
+      out.begin(threw ? "fail" : "nofail").str("op", "ins").bytes("k", knew).str("what", "length_error_value").num("n", 0);
+      out.num("hb", 0).num("ha", 0).end();
+      log_dump();
+    }
+#if SEQ_KEY == 1
+    {
+      bool threw = false;
+      try {
+        (void)db->insert(KeyT{&fake, too_long}, unodb::value_view{&fake, 1});
+      } catch (const std::length_error&) {
+        threw = true;
+      }
+      out.begin(threw ? "fail" : "nofail").str("op", "ins").bytes("k", Bytes{}).str("what", "length_error_key").num("n", 0);
+      out.num("hb", 0).num("ha", 0).end();
+      log_dump();
+    }
+#endif
   }
   void do_get(const Bytes& k) {
     const OpMark mark{"get"};
@@ -809,6 +954,7 @@ int main(int argc, char** argv) {
   const char* outp = nullptr;
   const char* replay = nullptr;
   bool thorough = false;
+  bool faults = false;
   for (int i = 1; i < argc; ++i) {
     const std::string a = argv[i];
     if (a == "--seed" && i + 1 < argc) seed = std::strtoull(argv[++i], nullptr, 10);
@@ -817,6 +963,7 @@ int main(int argc, char** argv) {
     else if (a == "--out" && i + 1 < argc) outp = argv[++i];
     else if (a == "--replay" && i + 1 < argc) replay = argv[++i];
     else if (a == "--thorough") thorough = true;
+    else if (a == "--faults") faults = true;
     else {
       std::fprintf(stderr, "unknown arg %s\n", a.c_str());
       return 2;
@@ -824,6 +971,10 @@ int main(int argc, char** argv) {
   }
   FILE* f = outp ? std::fopen(outp, "w") : stdout;
   if (!f) return 2;
+  {
+    const HeapPause hp;
+    g_reg.live.reserve(1 << 14);
+  }
   unodb::verif::g_hook.store(hook_cb);
   g_out_file = f;
   std::signal(SIGABRT, crash_handler);
@@ -835,6 +986,7 @@ int main(int argc, char** argv) {
   {
     Driver d(out, seed);
     d.thorough = thorough;
+    d.faults = faults;
     d.header();
     if (replay != nullptr) {
       FILE* in = std::fopen(replay, "r");
@@ -866,7 +1018,10 @@ int main(int argc, char** argv) {
       }
       std::fclose(in);
     } else {
-      for (long h = 0; h < histories; ++h) d.run_history(static_cast<int>(h % 7), nops);
+      for (long h = 0; h < histories; ++h) {
+        d.run_history(static_cast<int>(h % 7), nops);
+        if (faults) d.do_length_errors();
+      }
     }
     d.reset("end");
   }
